@@ -140,7 +140,7 @@ def einsum_sites():
     """(class, field, rank of X) -> (subscripts, operand sources) for the gbasis methods of H1 / Hdiv / Hcurl"""
     sites = {}
     for rel, cls in (('skfem/element/element_h1.py', 'ElementH1'), ('skfem/element/element_hdiv.py', 'ElementHdiv'),
-                     ('skfem/element/element_hcurl.py', 'ElementHcurl')):
+                     ('skfem/element/element_hcurl.py', 'ElementHcurl'), ('skfem/element/element_matrix.py', 'ElementMatrix')):
         tree = t2.parse(rel)
         fn = t2.find_def(tree, 'gbasis', cls)
         for call in [c for c in ast.walk(fn) if isinstance(c, ast.Call) and t2.src(c.func) == 'DiscreteField']:
@@ -199,9 +199,18 @@ def generate_c09():
     if [s for s, _ in hval] != ['broadcast', 'broadcast'] or any(a[0] != 'phi' for _, a in hval):
         raise TranslateError('ElementH1.gbasis value: ' + repr(hval))
     scale = '1.0 / np.abs(detDF) * orient[:, None]'
-    chk(('ElementHdiv', 'value'), [('ijkl,jl,kl->ikl', ['DF', 'phi', scale]), ('ijkl,jkl,kl->ikl', ['DF', 'phi', scale])])
     divx = 'dphi / (np.abs(detDF) * orient[:, None])'
-    chk(('ElementHdiv', 'div'), [('expr', [divx])] * 2)
+    # ElementHdiv: recorded, not raised — the tie lemma tie_hdiv_sites (dyn/C09Pull.v) states that the value is the einsum of
+    # DF, phi and a scale that carries BOTH the cell index k and the point index l (det DF taken at the same point as DF
+    # and phi) with exactly the scale / div expressions the theorems are about
+    hv = sorted(sites.get(('ElementHdiv', 'value')) or [])
+    hd_ = sorted(sites.get(('ElementHdiv', 'div')) or [])
+    hdiv_expected = (hv == sorted([('ijkl,jl,kl->ikl', ['DF', 'phi', scale]), ('ijkl,jkl,kl->ikl', ['DF', 'phi', scale])])
+                     and hd_ == [('expr', [divx])] * 2)
+    hdiv_pointwise = bool(hv) and all(sub != 'expr' and sub != 'broadcast' and sub.split('->')[0].split(',')[-1] == 'kl'
+                                      for sub, _ in hv)
+    if not hv or not hd_:
+        raise TranslateError('ElementHdiv.gbasis: value / div not found')
     chk(('ElementHcurl', 'value'), [('ijkl,il,k->jkl', ['invDF', 'phi', 'orient']), ('ijkl,ikl,k->jkl', ['invDF', 'phi', 'orient'])] * 2)
     cscale = '1.0 / detDF * orient[:, None]'
     curl2 = 'dphi / detDF * orient[:, None]'
@@ -216,6 +225,13 @@ def generate_c09():
         parts.append(einsum_to_coq(f'gen_hdiv_value{d}', 'ijkl,jl,kl->ikl', d, ['DF', 'phi', 'c']))
         parts.append(einsum_to_coq(f'gen_hcurl_value{d}', 'ijkl,il,k->jkl', d, ['invDF', 'phi', 'orient']).replace('(orient)', 'orient'))
     parts.append(einsum_to_coq('gen_hcurl_curl3', 'ijkl,jl,kl->ikl', 3, ['DF', 'dphi', 'c']))
+    mscale = '1 / np.abs(detDF) ** 2'
+    chk(('ElementMatrix', 'value'), [('ijkl,jal,bakl,kl->ibkl', ['DF', 'phi', 'DF', mscale]),
+                                     ('ijkl,jakl,bakl,kl->ibkl', ['DF', 'phi', 'DF', mscale])])
+    parts.append(einsum_to_coq('gen_matrix_value2', 'ijkl,jal,bakl,kl->ibkl', 2, ['DF', 'phi', 'DF2', 'c']))
+    parts.append(f'Definition gen_matrix_scale (absdet : Q) : Q := {ex.tr(ast.parse(mscale, mode="eval").body)}%Q.')
+    parts.append(f'Definition gen_hdiv_scale_pointwise : bool := {"true" if hdiv_pointwise else "false"}.   (* scale operand indexed by cell AND point *)')
+    parts.append(f'Definition gen_hdiv_sites_as_expected : bool := {"true" if hdiv_expected else "false"}.')
     parts.append(f'Definition gen_hdiv_scale (absdet orient : Q) : Q := {ex.tr(ast.parse(scale, mode="eval").body)}%Q.')
     parts.append(f'Definition gen_hdiv_div (dphi absdet orient : Q) : Q := {ex.tr(ast.parse(divx, mode="eval").body)}%Q.')
     parts.append(f'Definition gen_hcurl_scale (detDF orient : Q) : Q := {ex.tr(ast.parse(cscale, mode="eval").body)}%Q.')
